@@ -34,8 +34,16 @@ var swaps = map[token.Token][]string{
 	token.ADD: {"-"}, token.SUB: {"+"}, token.MUL: {"/"}, token.QUO: {"*"}, token.REM: {"/"},
 }
 
+var v2 = false
+
+var skipFns = map[string]bool{"logConfig": true, "main": true, "procArgs": true, "checkConfigChanges": true, "deleteExcessRecordings": true, "snapshotRecordingTriggers": true,
+	"runMain": true, "startService": true, "startCamera": true, "cycleCameraPower": true, "installSPIDriver": true, "uninstallSPIDriver": true, "resetWatchdog": true}
+
 func main() {
 	root := os.Args[1]
+	if len(os.Args) > 2 && os.Args[2] == "-v2" {
+		v2 = true
+	}
 	cfg := &packages.Config{Mode: packages.NeedName | packages.NeedFiles | packages.NeedSyntax | packages.NeedTypes | packages.NeedTypesInfo | packages.NeedImports | packages.NeedDeps, Dir: root, Tests: false}
 	pkgs, err := packages.Load(cfg, "./...")
 	if err != nil {
@@ -57,7 +65,7 @@ func main() {
 			emit := func(fn string, pos, end token.Pos, repl, op string) {
 				n++
 				s, e := off(pos), off(end)
-				enc.Encode(Mut{ID: fmt.Sprintf("m%05d", n), File: rel, Start: s, End: e, Repl: repl, Op: op, Line: fset.Position(pos).Line, Fn: fn, Orig: string(src[s:e])})
+				enc.Encode(Mut{ID: fmt.Sprintf(idfmt(), n), File: rel, Start: s, End: e, Repl: repl, Op: op, Line: fset.Position(pos).Line, Fn: fn, Orig: string(src[s:e])})
 			}
 			for _, d := range f.Decls {
 				fd, ok := d.(*ast.FuncDecl)
@@ -65,8 +73,15 @@ func main() {
 					continue
 				}
 				fn := fd.Name.Name
+				if v2 && skipFns[fn] {
+					continue
+				}
 				if fd.Recv != nil && len(fd.Recv.List) > 0 {
 					fn = types.ExprString(fd.Recv.List[0].Type) + "." + fn
+				}
+				if v2 {
+					genV2(p, fd, fn, src, off, emit)
+					continue
 				}
 				ast.Inspect(fd.Body, func(nd ast.Node) bool {
 					switch x := nd.(type) {
@@ -180,4 +195,130 @@ func main() {
 		}
 	}
 	fmt.Fprintln(os.Stderr, n, "mutants")
+}
+
+func idfmt() string {
+	if v2 {
+		return "n%05d"
+	}
+	return "m%05d"
+}
+
+func isLogLine(src []byte, s int) bool {
+	// the source line containing offset s mentions a logger
+	b, e := s, s
+	for b > 0 && src[b-1] != '\n' {
+		b--
+	}
+	for e < len(src) && src[e] != '\n' {
+		e++
+	}
+	l := string(src[b:e])
+	return strings.Contains(l, "log.") || strings.Contains(l, ".Printf(") || strings.Contains(l, "debug.")
+}
+
+// genV2: the second operator set - wrong local of the same type, deleted return/continue/break, duplicated statement,
+// two adjacent statements swapped, += <-> -=, slice bound off by one, else branch dropped, guard removed.
+func genV2(p *packages.Package, fd *ast.FuncDecl, fn string, src []byte, off func(token.Pos) int, emit func(string, token.Pos, token.Pos, string, string)) {
+	text := func(a, b token.Pos) string { return string(src[off(a):off(b)]) }
+	// locals and parameters of the function, in declaration order
+	var locals []*types.Var
+	ast.Inspect(fd, func(nd ast.Node) bool {
+		if id, ok := nd.(*ast.Ident); ok {
+			if v, ok := p.TypesInfo.Defs[id].(*types.Var); ok && !v.IsField() && v.Name() != "_" {
+				locals = append(locals, v)
+			}
+		}
+		return true
+	})
+	simple := func(st ast.Stmt) bool {
+		switch x := st.(type) {
+		case *ast.ExprStmt:
+			_, ok := x.X.(*ast.CallExpr)
+			return ok
+		case *ast.AssignStmt:
+			return x.Tok != token.DEFINE
+		case *ast.IncDecStmt:
+			return true
+		}
+		return false
+	}
+	ast.Inspect(fd.Body, func(nd ast.Node) bool {
+		switch x := nd.(type) {
+		case *ast.Ident:
+			v, ok := p.TypesInfo.Uses[x].(*types.Var)
+			if !ok || v.IsField() || v.Pkg() != p.Types || v.Parent() == p.Types.Scope() || isLogLine(src, off(x.Pos())) {
+				return true
+			}
+			cnt := 0
+			for _, o := range locals {
+				if o == v || o.Pos() >= x.Pos() || !types.Identical(o.Type(), v.Type()) || o.Name() == v.Name() {
+					continue
+				}
+				// still in scope at the use?
+				if sc := o.Parent(); sc == nil || !(sc.Pos() <= x.Pos() && x.Pos() < sc.End()) {
+					continue
+				}
+				if o.Name() == "err" || v.Name() == "err" {
+					continue
+				}
+				cnt++
+				if cnt > 2 {
+					break
+				}
+				emit(fn, x.Pos(), x.End(), o.Name(), "wrongvar "+v.Name()+"->"+o.Name())
+			}
+		case *ast.BranchStmt:
+			if x.Label == nil && (x.Tok == token.CONTINUE || x.Tok == token.BREAK) {
+				emit(fn, x.Pos(), x.End(), "", "del-"+x.Tok.String())
+			}
+		case *ast.ReturnStmt:
+			if len(x.Results) == 0 {
+				emit(fn, x.Pos(), x.End(), "", "del-return")
+			}
+		case *ast.BlockStmt:
+			for i, st := range x.List {
+				if simple(st) && !isLogLine(src, off(st.Pos())) {
+					t := text(st.Pos(), st.End())
+					emit(fn, st.Pos(), st.End(), t+"\n"+t, "dup-stmt")
+					if i+1 < len(x.List) && simple(x.List[i+1]) && !isLogLine(src, off(x.List[i+1].Pos())) {
+						t2 := text(x.List[i+1].Pos(), x.List[i+1].End())
+						if t != t2 {
+							emit(fn, st.Pos(), x.List[i+1].End(), t2+"\n"+t, "swap-stmts")
+						}
+					}
+				}
+			}
+		case *ast.AssignStmt:
+			switch x.Tok {
+			case token.ADD_ASSIGN:
+				emit(fn, x.TokPos, x.TokPos+2, "-=", "assignop +=->-=")
+				emit(fn, x.TokPos, x.TokPos+2, "=", "assignop +=->=")
+			case token.SUB_ASSIGN:
+				emit(fn, x.TokPos, x.TokPos+2, "+=", "assignop -=->+=")
+			case token.MUL_ASSIGN:
+				emit(fn, x.TokPos, x.TokPos+2, "=", "assignop *=->=")
+			}
+		case *ast.SliceExpr:
+			if x.High != nil {
+				emit(fn, x.High.Pos(), x.High.End(), "("+text(x.High.Pos(), x.High.End())+")-1", "slice-high-1")
+			}
+			if x.Low != nil {
+				emit(fn, x.Low.Pos(), x.Low.End(), "("+text(x.Low.Pos(), x.Low.End())+")+1", "slice-low+1")
+			} else if x.High != nil {
+				emit(fn, x.High.Pos(), x.High.Pos(), "1:", "slice-low+1")
+			}
+		case *ast.IfStmt:
+			if isLogLine(src, off(x.Body.Lbrace)+2) {
+				return true
+			}
+			if x.Else != nil {
+				emit(fn, x.Body.End(), x.Else.End(), "", "else-dropped")
+			}
+			if x.Init == nil {
+				emit(fn, x.Cond.Pos(), x.Cond.End(), "true || ("+text(x.Cond.Pos(), x.Cond.End())+")", "guard-removed")
+			}
+		}
+		return true
+	})
 }
